@@ -79,11 +79,11 @@ unsafe fn setup<'a, const LEN: usize>(bump: &'a Bump, e: &[u8; 4]) -> (BVec<'a, 
 }
 
 fn same(v: &BVec<u8>, m: &Model) {
-    assert!(v.len() == m.n, "[C13] length differs from the reference model");
-    assert!(v.capacity() >= v.len(), "[C13] capacity below length");
+    vassert!(v.len() == m.n, "NEVER: [C13] length differs from the reference model");
+    vassert!(v.capacity() >= v.len(), "NEVER: [C13] capacity below length");
     let k: usize = kani::any();
     if k < m.n {
-        assert!(v[k] == m.a[k], "[C13] element differs from the reference model");
+        vassert!(v[k] == m.a[k], "NEVER: [C13] element differs from the reference model");
     }
 }
 
@@ -114,7 +114,7 @@ pub fn v1<const LEN: usize, const OP: u8>() {
                     m.n -= 1;
                     Some(m.a[m.n])
                 };
-                assert!(r == want, "[C13] pop returned a different value than the reference model");
+                vassert!(r == want, "NEVER: [C13] pop returned a different value than the reference model");
             }
             OP_INSERT => {
                 kani::assume(i <= LEN);
@@ -124,12 +124,12 @@ pub fn v1<const LEN: usize, const OP: u8>() {
             OP_REMOVE => {
                 kani::assume(i < LEN);
                 let r = v.remove(i);
-                assert!(r == m.remove(i), "[C13] remove returned a different value than the reference model");
+                vassert!(r == m.remove(i), "NEVER: [C13] remove returned a different value than the reference model");
             }
             OP_SWAP_REMOVE => {
                 kani::assume(i < LEN);
                 let r = v.swap_remove(i);
-                assert!(r == m.swap_remove(i), "[C13] swap_remove returned a different value than the reference model");
+                vassert!(r == m.swap_remove(i), "NEVER: [C13] swap_remove returned a different value than the reference model");
             }
             OP_TRUNCATE => {
                 v.truncate(i);
@@ -148,7 +148,7 @@ pub fn v1<const LEN: usize, const OP: u8>() {
                     m.push(x);
                 }
                 m.n = i;
-                assert!(v.capacity() >= i, "[C13] capacity below the new length after resize");
+                vassert!(v.capacity() >= i, "NEVER: [C13] capacity below the new length after resize");
             }
             OP_EXTEND | OP_EXTEND_COPY => {
                 let s: [u8; 3] = kani::any();
@@ -191,15 +191,15 @@ pub fn v1<const LEN: usize, const OP: u8>() {
                     k += 1;
                 }
                 v.append(&mut o);
-                assert!(o.len() == 0, "[C13] append left elements in the source vector");
+                vassert!(o.len() == 0, "NEVER: [C13] append left elements in the source vector");
             }
             OP_SPLIT_OFF => {
                 kani::assume(i <= LEN);
                 let t = v.split_off(i);
-                assert!(t.len() == LEN - i, "[C13] split_off tail has the wrong length");
+                vassert!(t.len() == LEN - i, "NEVER: [C13] split_off tail has the wrong length");
                 let k: usize = kani::any();
                 if k < LEN - i {
-                    assert!(t[k] == m.a[i + k], "[C13] split_off tail element differs from the reference model");
+                    vassert!(t[k] == m.a[i + k], "NEVER: [C13] split_off tail element differs from the reference model");
                 }
                 m.n = i;
             }
@@ -212,9 +212,9 @@ pub fn v1<const LEN: usize, const OP: u8>() {
                     while k < take && k < 4 {
                         let it = d.next();
                         if k < j - i {
-                            assert!(it == Some(m.a[i + k]), "[C13] drain yielded a different item than the reference model");
+                            vassert!(it == Some(m.a[i + k]), "NEVER: [C13] drain yielded a different item than the reference model");
                         } else {
-                            assert!(it.is_none(), "[C13] drain yielded more items than the range holds");
+                            vassert!(it.is_none(), "NEVER: [C13] drain yielded more items than the range holds");
                         }
                         k += 1;
                     }
@@ -266,7 +266,7 @@ pub fn v1<const LEN: usize, const OP: u8>() {
                         }
                     }
                 }
-                assert!(v.capacity() >= LEN + i, "[C13,C18] capacity below what reserve promised");
+                vassert!(v.capacity() >= LEN + i, "NEVER: [C13,C18] capacity below what reserve promised");
                 // and that many pushes do not move the buffer
                 let p0 = v.as_ptr() as usize;
                 let mut k = 0;
@@ -275,11 +275,11 @@ pub fn v1<const LEN: usize, const OP: u8>() {
                     m.push(x);
                     k += 1;
                 }
-                assert!(v.as_ptr() as usize == p0, "[C18] buffer moved although capacity had been reserved");
+                vassert!(v.as_ptr() as usize == p0, "NEVER: [C18] buffer moved although capacity had been reserved");
             }
             OP_SHRINK => {
                 v.shrink_to_fit();
-                assert!(v.capacity() >= v.len(), "[C13] capacity below length after shrink_to_fit");
+                vassert!(v.capacity() >= v.len(), "NEVER: [C13] capacity below length after shrink_to_fit");
             }
             OP_CLONE => {
                 let w = v.clone();
@@ -296,26 +296,26 @@ pub fn v1<const LEN: usize, const OP: u8>() {
                 } else {
                     Some(m.a[LEN - 1])
                 };
-                assert!(r == want, "[C13] into_iter yielded a different item than the reference model");
-                assert!(it.len() == if LEN == 0 { 0 } else { LEN - 1 }, "[C13] into_iter remaining length");
-                assert!(*canary == canary_v, "[C13] neighbour block disturbed");
+                vassert!(r == want, "NEVER: [C13] into_iter yielded a different item than the reference model");
+                vassert!(it.len() == if LEN == 0 { 0 } else { LEN - 1 }, "NEVER: [C13] into_iter remaining length");
+                vassert!(*canary == canary_v, "NEVER: [C13] neighbour block disturbed");
                 kani::cover!(true, "REACH: end of harness (into_iter)");
                 return;
             }
             _ => {
                 let s = v.into_bump_slice();
-                assert!(s.len() == m.n, "[C13] into_bump_slice length");
+                vassert!(s.len() == m.n, "NEVER: [C13] into_bump_slice length");
                 let k: usize = kani::any();
                 if k < m.n {
-                    assert!(s[k] == m.a[k], "[C13] into_bump_slice element differs");
+                    vassert!(s[k] == m.a[k], "NEVER: [C13] into_bump_slice element differs");
                 }
-                assert!(*canary == canary_v, "[C13] neighbour block disturbed");
+                vassert!(*canary == canary_v, "NEVER: [C13] neighbour block disturbed");
                 kani::cover!(true, "REACH: end of harness (into_slice)");
                 return;
             }
         }
         same(&v, &m);
-        assert!(*canary == canary_v, "[C13] neighbour block disturbed");
+        vassert!(*canary == canary_v, "NEVER: [C13] neighbour block disturbed");
         kani::cover!(true, "REACH: end of harness (other)");
     }
 }
@@ -384,14 +384,14 @@ pub fn v3_neighbours_body() {
         }
         let k: usize = kani::any();
         if k < a.len() {
-            assert!(a[k] == e[k], "[C13] vector contents changed when a neighbour (or itself) grew");
+            vassert!(a[k] == e[k], "NEVER: [C13] vector contents changed when a neighbour (or itself) grew");
         }
         if k < b.len() {
-            assert!(b[k] == f[k], "[C13] vector contents changed when a neighbour (or itself) grew");
+            vassert!(b[k] == f[k], "NEVER: [C13] vector contents changed when a neighbour (or itself) grew");
         }
         let pa = a.as_ptr() as usize;
         let pb = b.as_ptr() as usize;
-        assert!(pa + a.capacity() <= pb || pb + b.capacity() <= pa, "[C13,C01] buffers of two live vectors overlap");
+        vassert!(pa + a.capacity() <= pb || pb + b.capacity() <= pa, "NEVER: [C13,C01] buffers of two live vectors overlap");
         kani::cover!(which && a.len() == 4, "REACH: non-last vector grew");
         kani::cover!(!which && b.len() == 4, "REACH: last vector grew in place");
     }
@@ -412,14 +412,14 @@ pub fn v1_zst_body() {
             v.push(());
             k += 1;
         }
-        assert!(v.len() == n && v.capacity() >= n, "[C13] ZST vector length/capacity");
+        vassert!(v.len() == n && v.capacity() >= n, "NEVER: [C13] ZST vector length/capacity");
         let p = v.pop();
-        assert!(p.is_some() == (n > 0), "[C13] ZST pop");
+        vassert!(p.is_some() == (n > 0), "NEVER: [C13] ZST pop");
         v.truncate(1);
-        assert!(v.len() == if n >= 2 { 1 } else { n.saturating_sub(1) }, "[C13] ZST truncate");
+        vassert!(v.len() == if n >= 2 { 1 } else { n.saturating_sub(1) }, "NEVER: [C13] ZST truncate");
         let cnt = v.into_iter().count();
-        assert!(cnt == if n >= 2 { 1 } else { n.saturating_sub(1) }, "[C13] ZST into_iter count");
-        assert!(bump.chunk_capacity() == cap0, "[C13] a vector of zero-sized elements used arena space");
+        vassert!(cnt == if n >= 2 { 1 } else { n.saturating_sub(1) }, "NEVER: [C13] ZST into_iter count");
+        vassert!(bump.chunk_capacity() == cap0, "NEVER: [C13] a vector of zero-sized elements used arena space");
         kani::cover!(n == 3, "REACH: three ZST elements");
     }
 }
@@ -473,3 +473,37 @@ vh!(v2_split_off_l3, 14, v2::<3, OP_SPLIT_OFF>());
 vh!(v2_drain_l3, 14, v2::<3, OP_DRAIN>());
 vh!(v2_index_l3, 14, v2::<3, 99>());
 vh!(v3_neighbours, 14, v3_neighbours_body());
+
+/// C18: a full vector that has to grow at least doubles its capacity, whichever operation
+/// triggers the growth (amortised growth => logarithmically many reallocations).
+pub fn v4_growth<const OP: u8>() {
+    let mut back = Backing::<304>([0u8; 304]);
+    unsafe {
+        let c = small_chunk::<1>(back.0.as_mut_ptr(), 256, 200);
+        let bump = mk_bump::<1>(c.footer, None);
+        let e: [u8; 4] = kani::any();
+        let (mut v, _m) = setup::<4>(&bump, &e);
+        let cap0 = v.capacity();
+        let x: u8 = kani::any();
+        match OP {
+            0 => v.push(x),
+            1 => v.insert(2, x),
+            2 => v.extend_from_slice_copy(&[x]),
+            3 => v.extend_from_slice(&[x]),
+            4 => v.extend(core::iter::once(x)),
+            5 => v.resize(5, x),
+            _ => v.reserve(1),
+        }
+        vassert!(cap0 == 4, "NEVER: [C13] with_capacity_in(4) did not give capacity 4");
+        vassert!(v.capacity() >= 2 * cap0, "NEVER: [C18] a vector that had to grow did not at least double its capacity");
+        vassert!(v.capacity() >= v.len(), "NEVER: [C13] capacity below length");
+        kani::cover!(true, "REACH: end of harness");
+    }
+}
+vh!(v4_growth_push, 14, v4_growth::<0>());
+vh!(v4_growth_insert, 14, v4_growth::<1>());
+vh!(v4_growth_extend_copy, 14, v4_growth::<2>());
+vh!(v4_growth_extend_slice, 14, v4_growth::<3>());
+vh!(v4_growth_extend_iter, 14, v4_growth::<4>());
+vh!(v4_growth_resize, 14, v4_growth::<5>());
+vh!(v4_growth_reserve, 14, v4_growth::<6>());
